@@ -181,7 +181,7 @@ end Pms.Neigh
 namespace Pms.Neigh
 open Pms
 
-theorem length_idToks (l : List ℕ) : (idToks l).length = l.length := by simp [idToks]
+theorem length_idToks (l : List ℕ) : (idToks l).length = l.length := by simp [idToks, idToksOff]
 
 theorem renderRows_eq_map (s : ℕ) (fr : List (List String)) :
     renderRows s fr = (List.range fr.length).map fun i => rowLine (s + i) (fr.getD i []) := by
@@ -208,5 +208,20 @@ theorem lines_eq_render (n : ℕ) (cn : ℕ → ℕ) (ids : ℕ → List ℕ) (h
   unfold rowLine
   rw [List.getD_eq_getElem?_getD, List.getElem?_map, List.getElem?_map, List.getElem?_range hi']
   simp only [Option.map_some, Option.getD_some, length_idToks, h i hi']
+
+section Conv
+variable {R : Type} [Ring R]
+
+/-- value tokens of a neighbour list are read back as the zero-based indices -/
+theorem conv_idToks (pNum : String → R) (hpn : ∀ m : ℕ, pNum (Nat.repr m) = (m : R)) (nb : List ℕ) :
+    (idToks nb).map (conv pNum true) = nb.map fun (j : ℕ) => (j : R) := by
+  unfold idToks idToksOff conv
+  rw [List.map_map]
+  apply List.map_congr_left
+  intro j _
+  simp only [Function.comp, if_true, hpn]
+  simp
+
+end Conv
 
 end Pms.Neigh
